@@ -18,6 +18,116 @@ class _Sock:
     pass
 
 
+def real_bridge_init(batches, expected=None, controller_url="tcp://controller:5555"):
+    """the REAL `Bridge.__init__` driven with fake registration traffic: `batches` = what successive
+    `Listener.recv_messages` calls return (lists of ExecutorRegistration messages). Returns (Environment, bridge)."""
+    import cascade.executor.bridge as B
+
+    class L:
+        def __init__(self, url):
+            self.address = url
+            self.script = [list(b) for b in batches]
+
+        def recv_messages(self, timeout_ms=None):
+            return self.script.pop(0) if self.script else []
+
+    class Snd:
+        def __init__(self, address, resend):
+            self.hosts = {}
+            self.sent = []
+
+        def add_host(self, host, address):
+            self.hosts[host] = (_Sock(), address)
+
+        def send(self, host, m):
+            self.sent.append((host, m))
+
+    saved = (B.Listener, B.ReliableSender)
+    B.Listener, B.ReliableSender = L, Snd
+    was = B.logger.disabled
+    B.logger.disabled = True        # "double registration ..." warnings of the scripted traffic
+    try:
+        hosts = []
+        for b in batches:
+            for m in b:
+                if m.host not in hosts:
+                    hosts.append(m.host)
+        br = B.Bridge(controller_url, len(hosts) if expected is None else expected)
+        return br.get_environment(), br
+    finally:
+        B.Listener, B.ReliableSender = saved
+        B.logger.disabled = was
+
+
+def check_bridge_init(rng):
+    """What the controller believes about the cluster (audit C02 probe G): 1-4 hosts with 1-13 workers and 0..n+1 GPUs each
+    build their ExecutorRegistration with the REAL Executor.__init__; the messages reach the REAL Bridge.__init__ in
+    random batches, with empty polls and repeated registrations in between. From the meaning of a registration only: the
+    Environment lists exactly the registered workers, each with the cpu / gpu / memory figures its executor registered
+    (gpu = 1 exactly for the workers with index < CASCADE_GPU_COUNT of that host), and the routing table holds the
+    executor's and the data server's addresses of every host."""
+    from ekw import c02_exec
+    fails, counts = [], {}
+    H = rng.randint(1, 4)
+    regs, want, shape = [], {}, {}
+    for h in range(H):
+        nw = rng.choice([1, 2, 3, rng.randint(4, 13)])
+        gpus = rng.choice([0, 0, 1, nw, rng.randint(0, nw + 1)])
+        m = c02_exec.real_registration(nw, gpus, host=f"h{h}", full=True)
+        regs.append(m)
+        shape[f"h{h}"] = [h, nw, gpus]
+        for idx in range(nw):
+            want[(f"h{h}", idx)] = (1 if idx < gpus else 0)
+        counts["bridge_init_workers"] = counts.get("bridge_init_workers", 0) + nw
+        if 0 < gpus < nw:
+            counts["bridge_init_hosts_with_gpu_and_cpu_workers"] = counts.get("bridge_init_hosts_with_gpu_and_cpu_workers", 0) + 1
+    order = list(regs)
+    rng.shuffle(order)
+    stream = []
+    for m in order:
+        stream.append(m)
+        if rng.random() < 0.3:
+            stream.append(rng.choice(stream))          # a registration that arrives twice
+            counts["bridge_init_double_registrations"] = counts.get("bridge_init_double_registrations", 0) + 1
+    counts["_model_line"] = {"op": "bridge_init", "regs": [shape[m.host] for m in stream]}    # delivery order, repeats included
+    batches = []
+    while stream:
+        if rng.random() < 0.2:
+            batches.append([])
+        k = rng.randint(1, min(3, len(stream)))
+        batches.append(stream[:k])
+        stream = stream[k:]
+    counts["bridge_init"] = 1
+    try:
+        env, br = real_bridge_init(batches, expected=H)
+    except Exception as e:
+        return [("bridge-init-raised", repr(e)[:160])], counts
+    # for the comparison with Model/BridgeInit.lean: the Environment in dict (insertion) order, the executor entries of the routing table
+    counts["_impl"] = {"env": [[int(w.host[1:]), w.worker_num(), int(v.gpu)] for w, v in env.workers.items()],
+                       "hosts": [int(h[1:]) for h in br.sender.hosts if not h.startswith("data.")]}
+    got = {(w.host, w.worker_num()): v for w, v in env.workers.items()}
+    if sorted(got) != sorted(want):
+        fails.append(("bridge-environment-worker-set", [sorted(got), sorted(want)]))
+    reg_of = {(m.host, w.worker_id.worker_num()): w for m in regs for w in m.workers}
+    for k in sorted(want):
+        if k not in got:
+            continue
+        if int(got[k].gpu) != want[k]:
+            fails.append(("bridge-environment-gpu-flag", [list(k), "controller believes gpu=%s" % got[k].gpu, "executor registered gpu=%d" % want[k]]))
+            break
+    for k in sorted(want):
+        if k in got and k in reg_of and (got[k].cpu, got[k].memory_mb) != (reg_of[k].cpu, reg_of[k].memory_mb):
+            fails.append(("bridge-environment-cpu-or-memory", [list(k), [got[k].cpu, got[k].memory_mb], [reg_of[k].cpu, reg_of[k].memory_mb]]))
+            break
+    for m in regs:
+        if br.sender.hosts.get(m.host, (None, None))[1] != m.maddress or br.sender.hosts.get("data." + m.host, (None, None))[1] != m.daddress:
+            fails.append(("bridge-init-routing-table", [m.host, repr(br.sender.hosts.get(m.host))[:80], repr(br.sender.hosts.get("data." + m.host))[:80]]))
+            break
+    if sorted(br.heartbeat_checker) != sorted(m.host for m in regs):
+        fails.append(("bridge-init-heartbeat-table", sorted(br.heartbeat_checker)))
+    return fails, counts
+
+
 class _Sender:
     def __init__(self, hosts):
         self.hosts = hosts
@@ -49,6 +159,8 @@ def check_bridge(rng, n_calls=30):
     br.sender = _Sender(hosts)
     br.mlistener = _Listener()
     br.transmit_idx_counter = 0
+    # Bridge.shutdown addresses the registered executors = the keys of heartbeat_checker (since /repo 269cdbb)
+    br.heartbeat_checker = {f"h{h}": object() for h in range(H)}
     fails, counts, idxs = [], {}, []
 
     def bump(k):
